@@ -343,3 +343,4 @@ H("C07", "css/validation", "VxH_C07_gradients", reach=["validated", "accepted"],
 H("C12", "html/layout", "VxH_C12_named_pages", reach=["laid-out", "same-page-name", "page-name-changes"], bounds="two sections each holding one 10px block with page: auto / a / b; a float or absolutely positioned box optionally ending the first section and starting the second; @page a and @page b with their own sizes", quick={"maxsteps": 100000000, "shards": 6})
 H("C13", "html/layout", "VxH_C13_fixed_auto_column", mode="real", reach=["laid-out", "fits", "too-narrow"], bounds="fixed layout, one row of two cells with symbolic widths in [0,150] and one cell without a width; table width in [20,300], border-spacing in [0,20] (all symbolic reals)", quick={"maxsteps": 100000000})
 H("C14", "html/document", "VxH_C14_border_image", mode="real", nonfinite_confirm=True, reach=["laid-out", "drawn"], bounds="one block with a 10px border and a linear-gradient border image; border-image-slice in 8 values (0, 0%, mixed, fill, 100%), 4 repeat modes, content width and height symbolic reals in [0,100]; paths with a float division by zero are decided by running their solver model natively", quick={"maxsteps": 200000000, "shards": 8})
+H("C18", "svg", "VxH_C18_arc_center", mode="real", reach=["centre"], bounds="arc from the origin to a symbolic end point in [-100,100]^2, rx symbolic in [1,100], ry/rx in {1, 2, 1/2}, both flags, x-axis-rotation 0; exact reals with sqrt axiomatised", quick={"solverms": 60000})
